@@ -53,6 +53,31 @@ def grouped_conv_graph(rng):
     return {"type": "NIRGraph", "nodes": nodes, "edges": edges, "meta": None}, truth, ["conv", "out"]
 
 
+def same_stride_graph(rng):
+    """Input -> Conv(padding='same', stride > 1, shape left to inference) -> [Flatten(None)] -> Output(None).
+    'same' with a stride other than 1 is outside C06's stated domain, so what the types *are* is not judged;
+    only that they survive the round trips (the reference is inference on the original graph)."""
+    two_d = rng.random() < 0.7
+    k = [rng.choice([1, 3, 5]) for _ in range(2 if two_d else 1)]
+    n = [rng.randrange(6, 14) for _ in k]
+    cin, cout = rng.randrange(1, 3), rng.randrange(1, 5)
+    stride = [rng.randrange(2, 4) for _ in k]
+    conv = {"type": "Conv2d" if two_d else "Conv1d", "kwargs": [
+        ["input_shape", None], ["weight", gen.arr(rng, [cout, cin] + k)],
+        ["stride", gen.pyint(stride[0]) if not two_d or rng.random() < 0.5 else {"t": [gen.pyint(x) for x in stride]}],
+        ["padding", {"s": "same"}], ["dilation", gen.pyint(1)], ["groups", gen.pyint(1)], ["bias", gen.arr(rng, [cout])]]}
+    in_shape = [cin] + n
+    nodes = [["in", {"type": "Input", "kwargs": [["input_type", gen.shape_arg(rng, in_shape, "input")]]}], ["conv", conv]]
+    edges = [["in", "conv"]]
+    last = "conv"
+    if rng.random() < 0.6:
+        nodes.append(["flat", {"type": "Flatten", "kwargs": [["input_type", None], ["start_dim", gen.pyint(0)], ["end_dim", gen.pyint(-1)]]}])
+        edges.append(["conv", "flat"]); last = "flat"
+    nodes.append(["out", {"type": "Output", "kwargs": [["output_type", None]]}])
+    edges.append([last, "out"])
+    return {"type": "NIRGraph", "nodes": nodes, "edges": edges, "meta": None}, None, ["conv", "out"]
+
+
 def run(ctx):
     from core import run_graph_ops
     rng = ctx.rng
@@ -60,7 +85,19 @@ def run(ctx):
     OPS = ["infer", "file_rt", "dict_rt"]
     for i in range(ctx.n(160, 320)):
         grouped = i % 8 == 7
-        if grouped:
+        if i % 8 == 3:
+            grouped = True          # commutation clause only
+            g, truth, erased = same_stride_graph(rng)
+            try:
+                ref = impl_construct(g)
+                with quiet():
+                    ref.infer_types()
+                truth = {k: (v[0]["input"], v[1]["output"]) for k, v in types_of(ref).items()}
+                ctx.count("same_stride_graphs")
+            except Exception:
+                ctx.count("same_stride_rejected")
+                continue
+        elif grouped:
             # groups > 1 is outside C06/C08's stated domain (declared conv input channels ignore `groups`), so only
             # the commutation clause -- which the code does satisfy there -- is checked on these graphs
             g, truth, erased = grouped_conv_graph(rng)
